@@ -73,25 +73,30 @@ def stage_dir(key):
 
 
 def stage(key, fn):
-    """Runs fn(dir) -> dict once per (tree, key); the result and its files are cached under .cache."""
+    """Runs fn(dir) -> dict once per (tree, key); the result and its files are cached under .cache.
+    A file lock makes concurrent checks wait for each other instead of computing a stage twice."""
+    import fcntl
     d = stage_dir(key)
+    os.makedirs(os.path.dirname(d), exist_ok=True)
     res = os.path.join(d, 'result.json')
-    if os.path.exists(res):
-        with open(res) as fh:
-            r = json.load(fh)
-        r['_cached'] = True
+    with open(d + '.lock', 'w') as lk:
+        fcntl.flock(lk, fcntl.LOCK_EX)
+        if os.path.exists(res):
+            with open(res) as fh:
+                r = json.load(fh)
+            r['_cached'] = True
+            return r
+        if os.path.exists(d):
+            shutil.rmtree(d)
+        os.makedirs(d)
+        t0 = time.time()
+        r = fn(d)
+        r['_wall'] = round(time.time() - t0, 2)
+        r['_dir'] = d
+        with open(res + '.tmp', 'w') as fh:
+            json.dump(r, fh)
+        os.rename(res + '.tmp', res)
         return r
-    if os.path.exists(d):
-        shutil.rmtree(d)
-    os.makedirs(d)
-    t0 = time.time()
-    r = fn(d)
-    r['_wall'] = round(time.time() - t0, 2)
-    r['_dir'] = d
-    with open(res + '.tmp', 'w') as fh:
-        json.dump(r, fh)
-    os.rename(res + '.tmp', res)
-    return r
 
 
 def prune_cache(keep=3):
@@ -296,8 +301,43 @@ def conformance_stage(kind, variant, params):
         elif kind == 'script':
             args = ['script', '--in', os.path.join(VERIF, params['file']), '--out', trace]
         else:
-            args = ['replay', '--in', params['file'], '--out', trace, '--report', os.path.join(d, 'report.json')]
-        rep = run_harness(variant, args)
+            args = []
+        if kind == 'replay' and (params.get('n') or 0) == 0:
+            raise ToolError('engine %s produced no behaviours to replay' % params.get('engine'))
+        if kind == 'replay':
+            # shard the behaviours over several harness processes
+            k = max(1, min(4, params.get('n', 1) // 500))
+            outs = [open(os.path.join(d, 'beh%d.ndjson' % i), 'w') for i in range(k)]
+            with open(params['file']) as fh:
+                for i, line in enumerate(fh):
+                    outs[i % k].write(line)
+            for o in outs:
+                o.close()
+            def one(i):
+                return run_harness(variant, ['replay', '--in', outs[i].name, '--out', os.path.join(d, 'trace%d.ndjson' % i), '--report', os.path.join(d, 'report%d.json' % i),
+                                             '--sample', str(params.get('sample', 1)), '--seed', str(params.get('seed', 0))])
+            with cf.ThreadPoolExecutor(max_workers=k) as ex:
+                reps = list(ex.map(one, range(k)))
+            rep = {'mode': 'replay', 'behaviours': 0, 'drifted': 0, 'skipped': 0, 'events': 0, 'written': 0, 'drift_samples': []}
+            for r in reps:
+                if r.get('crash'):
+                    rep = r
+                    break
+                for key in ('behaviours', 'drifted', 'skipped', 'events', 'written'):
+                    rep[key] += r.get(key, 0)
+                rep['drift_samples'] += r.get('drift_samples', [])[:3]
+                rep['build'] = r.get('build')
+            if not rep.get('crash'):
+                with open(trace, 'w') as out:
+                    for i in range(k):
+                        with open(os.path.join(d, 'trace%d.ndjson' % i)) as fh:
+                            shutil.copyfileobj(fh, out)
+            for i in range(k):
+                for f in (outs[i].name, os.path.join(d, 'trace%d.ndjson' % i)):
+                    if os.path.exists(f):
+                        os.unlink(f)
+        else:
+            rep = run_harness(variant, args)
         res = {'kind': kind, 'variant': variant, 'params': params, 'harness': rep, 'violations': [], 'events': 0, 'runs': 0}
         if rep.get('crash'):
             # A crash of the real code under the harness is itself a finding (memory safety / abort)
@@ -333,9 +373,9 @@ def engine_stage(name, tier):
     key = ['engine', name, cfgname]
 
     def run(d):
-        extra = ['-coverage', '1']
+        extra = []
         env = {}
-        rc, out = tlc(eng['module'], cfgname, d, workers=eng.get('workers', NCPU), extra=extra, env=env, timeout=eng.get('timeout', 3000),
+        rc, out = tlc(eng['module'], cfgname, d, workers=eng.get('workers', 8), extra=extra, env=env, timeout=eng.get('timeout', 3000),
                       simulate=eng.get('simulate', {}).get(tier), heap=eng.get('heap', '16g'))
         txt = open(out, errors='replace').read()
         res = {'engine': name, 'cfg': cfgname, 'rc': rc}
@@ -346,32 +386,45 @@ def engine_stage(name, tier):
         if m:
             res['depth'] = int(m.group(1))
         cov = {}
-        for mm in COV_RE.finditer(txt):
-            cov[mm.group(1)] = cov.get(mm.group(1), 0) + int(mm.group(8))
-        res['coverage_by_action'] = cov
         ok = ('Model checking completed. No error has been found' in txt) or (eng.get('simulate', {}).get(tier) and rc in (0, -9))
         res['ok'] = bool(ok)
         if not ok:
             res['tail'] = txt[-6000:]
-        # harvest behaviours
+        # harvest behaviours; drop those that are a proper prefix of another one
         beh = os.path.join(d, 'behaviours.ndjson')
+        cands, prefixes = {}, set()
+        for line in txt.splitlines():
+            if line.startswith('<<"RP", "'):
+                body = line[len('<<"RP", "'):-3]
+                try:
+                    s = body.encode('utf-8').decode('unicode_escape')
+                    evs = json.loads(s)
+                except Exception:
+                    continue
+                for e in evs:
+                    if e.get('e') in ('call', 'cb', 'cbx'):
+                        nm = e['e'] + ':' + str(e.get('op', e.get('cb'))) + ('!' if e.get('panic') is True else '')
+                        cov[nm] = cov.get(nm, 0) + 1
+                    elif e.get('e') == 'ret' and e.get('panic'):
+                        nm = 'ret:' + e['op'] + '!' + e['panic']
+                        cov[nm] = cov.get(nm, 0) + 1
+                h = hashlib.md5()
+                hs = []
+                for e in evs:
+                    h.update(json.dumps(e, sort_keys=True).encode())
+                    hs.append(h.digest())
+                if hs[-1] in cands:
+                    continue
+                cands[hs[-1]] = s
+                prefixes.update(hs[:-1])
         n = 0
-        seen = set()
         with open(beh, 'w') as fh:
-            for line in txt.splitlines():
-                if line.startswith('<<"RP", "'):
-                    body = line[len('<<"RP", "'):-3]
-                    try:
-                        s = body.encode('utf-8').decode('unicode_escape')
-                        json.loads(s)
-                    except Exception:
-                        continue
-                    h = hashlib.md5(s.encode()).digest()
-                    if h in seen:
-                        continue
-                    seen.add(h)
+            for k, s in cands.items():
+                if k not in prefixes:
                     fh.write(s + '\n')
                     n += 1
+        res['behaviours_emitted'] = len(cands)
+        res['coverage_by_action'] = cov
         res['behaviours'] = n
         res['behaviours_file'] = beh
         # do not keep the huge TLC output, only its non-behaviour part
@@ -440,11 +493,13 @@ def run_check(pid, tier, seed):
     known = load_known()
     variants = sorted({s['variant'] for s in plan['conformance']})
     build_all(variants)
-    engines = []
-    for name in plan['engines']:
+    def _eng(name):
         log('engine', name)
-        r = engine_stage(name, tier)
-        engines.append(r)
+        return engine_stage(name, tier)
+    with cf.ThreadPoolExecutor(max_workers=2) as ex:
+        engines = list(ex.map(_eng, plan['engines']))
+    for r in engines:
+        name = r['engine']
         if not r.get('ok'):
             # the specification itself violates an invariant / property: decide in DESIGN, never silently pass
             print('SPEC-VIOLATION engine=%s (see %s)' % (name, os.path.join(r.get('_dir', stage_dir(['engine', name, r['cfg']])), 'tlc.out')))
@@ -459,13 +514,16 @@ def run_check(pid, tier, seed):
     for s in plan['conformance']:
         if s['kind'] == 'replay':
             er = next(e for e in engines if e['engine'] == s['engine'])
-            params = {'file': er['behaviours_file'], 'engine': s['engine'], 'n': er['behaviours']}
+            params = {'file': er['behaviours_file'], 'engine': s['engine'], 'n': er['behaviours'], 'sample': 20 if tier == 'quick' else 2, 'seed': seed}
         else:
             params = s['params']
         jobs.append((s['kind'], s['variant'], params))
-    for k, v, p in jobs:
+    def _conf(j):
+        k, v, p = j
         log('conformance', k, v, {x: y for x, y in p.items() if x != 'file'} if k != 'script' else p)
-        confs.append(conformance_stage(k, v, p))
+        return conformance_stage(k, v, p)
+    with cf.ThreadPoolExecutor(max_workers=3) as ex:
+        confs = list(ex.map(_conf, jobs))
     # verdicts
     viols, crashes, harness_bad = [], [], []
     for c in confs:
